@@ -568,4 +568,327 @@ theorem run_inv {s : State} (h : Inv s) (ops : List Op) : Inv (run s ops) := by
   | nil => exact h
   | cons op rest ih => exact ih (step_inv h op)
 
+/-! ### exceptions and traps leave the state unchanged -/
+
+theorem assignTo_frame {s0 : State} {d : Nat} {r : MRes} (h : ∀ o, (assignTo s0 d r).2 ≠ .ok o) :
+    (assignTo s0 d r).1 = s0 := by
+  cases r with
+  | val s m => exact absurd rfl (h none)
+  | err e => rfl
+  | trap => rfl
+
+theorem copyBytes_frame {s : State} {dst src : View} {bytes dOff sOff : Nat}
+    (h : ∀ o, (copyBytes s dst src bytes dOff sOff).2 ≠ .ok o) : (copyBytes s dst src bytes dOff sOff).1 = s := by
+  unfold copyBytes at h ⊢
+  split
+  · rename_i h1 h2; simp only [h1, h2] at h; exact absurd rfl (h none)
+  · rfl
+
+theorem step_frame {s : State} {op : Op} (h : ∀ o, (step s op).2 ≠ .ok o) : (step s op).1 = s := by
+  cases op with
+  | malloc v n e data => exact assignTo_frame h
+  | mallocFrom v n e src => exact assignTo_frame h
+  | wrap v hb n e => exact assignTo_frame h
+  | slice d src off cnt => exact assignTo_frame h
+  | cast d src e => exact assignTo_frame h
+  | clone d src => exact assignTo_frame h
+  | setDtype v e =>
+    simp only [step, doSetDtype] at h ⊢
+    cases hm : s.vars v with
+    | none => rfl
+    | some m =>
+      simp only [hm] at h ⊢
+      cases hp : s.mems[m]? with
+      | none => rfl
+      | some p => simp only [hp] at h; exact absurd rfl (h none)
+  | copyFromHost v data cnt off =>
+    simp only [step, doCopyFromHost] at h ⊢
+    split
+    · rfl
+    · rename_i p hp
+      simp only [hp] at h
+      split
+      · rfl
+      split
+      · rfl
+      split
+      · rfl
+      split
+      · rfl
+      rename_i h1 h2 h3 h4
+      simp only [h1, h2, h3, h4, if_false] at h
+      split
+      · rfl
+      · rename_i b hb; simp only [hb] at h; exact absurd rfl (h none)
+  | copyToHost v cap cnt off =>
+    simp only [step, doCopyToHost] at h ⊢
+    split
+    · rfl
+    · split
+      · rfl
+      split
+      · rfl
+      split
+      · rfl
+      split
+      · rfl
+      split <;> rfl
+  | copyFromMem d src cnt doff soff =>
+    simp only [step, doCopyFromMem] at h ⊢
+    split
+    · rfl
+    · rfl
+    · rfl
+    · rename_i dv sv hd hs
+      simp only [hd, hs] at h
+      split
+      · rfl
+      · rename_i bytes dOff sOff hcg
+        simp only [hcg] at h
+        exact copyBytes_frame h
+  | copyToMem src d cnt doff soff =>
+    simp only [step, doCopyToMem] at h ⊢
+    split
+    · rfl
+    · rfl
+    · rfl
+    · rename_i sv dv hs hd
+      simp only [hd, hs] at h
+      split
+      · rfl
+      · rename_i bytes dOff sOff hcg
+        simp only [hcg] at h
+        exact copyBytes_frame h
+  | assign d src => exact absurd rfl (h none)
+  | free v =>
+    simp only [step, doFree] at h ⊢
+    split
+    · rfl
+    · rename_i m hm; simp only [hm] at h; exact absurd rfl (h none)
+  | hostWrite hb off data =>
+    simp only [step, doHostWrite] at h ⊢
+    split
+    · rename_i b hb1
+      simp only [hb1] at h
+      split
+      · rename_i hc; simp only [hc] at h; exact absurd rfl (h none)
+      · rfl
+    · rfl
+  | hostRead hb off n =>
+    simp only [step, doHostRead]
+    split
+    · split <;> rfl
+    · rfl
+
+/-! ### no operation traps, as long as the caller keeps its side of the contract -/
+
+/-- what the C++ API silently assumes about raw host pointers: the array behind a pointer is at
+    least as long as the (in-range) request; `wrap` is given one of the caller's two arrays -/
+def Contract (s : State) : Op → Prop
+  | .malloc _ n e (some dt) => (n * (e : Int)).toNat ≤ dt.length
+  | .wrap _ hb n e => hb < nHostBufs ∧ (n * (e : Int)).toNat ≤ hostBufSize
+  | .copyFromHost v data cnt off =>
+      ∀ p, view? s v = some p → udimLe (countBytes p cnt + (p.esz : Int) * off) p.size = true →
+        (countBytes p cnt).toNat ≤ data.length
+  | .copyToHost v cap cnt off =>
+      ∀ p, view? s v = some p → udimLe (countBytes p cnt + (p.esz : Int) * off) p.size = true →
+        (countBytes p cnt).toNat ≤ cap
+  | .hostWrite hb off data => hb < nHostBufs ∧ off + data.length ≤ hostBufSize
+  | .hostRead hb off n => hb < nHostBufs ∧ off + n ≤ hostBufSize
+  | _ => True
+
+theorem assignTo_noTrap {s0 : State} {d : Nat} {r : MRes} (h : r ≠ .trap) : (assignTo s0 d r).2 ≠ .trap := by
+  cases r with
+  | val s m => intro hc; cases hc
+  | err e => intro hc; cases hc
+  | trap => exact absurd rfl h
+
+theorem mallocExpr_noTrap {s : State} {n : Int} {e : Nat} {data : Option (List UInt8)}
+    (hc : ∀ dt, data = some dt → (n * (e : Int)).toNat ≤ dt.length) : mallocExpr s n e data ≠ .trap := by
+  unfold mallocExpr
+  split
+  · intro h; cases h
+  · simp only []
+    split
+    · intro h; cases h
+    · split
+      · intro h; cases h
+      · rename_i dt
+        have := hc dt rfl
+        rw [if_neg (by omega)]
+        intro h; cases h
+
+theorem mallocFromExpr_noTrap {s : State} (h : Inv s) (n : Int) (e src : Nat) : mallocFromExpr s n e src ≠ .trap := by
+  unfold mallocFromExpr
+  have hg := mallocExpr_good h n e none
+  have hnt := mallocExpr_noTrap (s := s) (n := n) (e := e) (data := none) (fun _ hd => by cases hd)
+  cases hme : mallocExpr s n e none with
+  | err er => intro hc; cases hc
+  | trap => exact absurd hme hnt
+  | val s1 om =>
+    rw [hme] at hg
+    cases om with
+    | none => intro hc; cases hc
+    | some m =>
+      simp only []
+      obtain ⟨_, _, hm, nb, hnb, _, hs1⟩ := mallocExpr_val hme
+      have hle : BufLe s s1 := by rw [hs1]; exact bufLe_pushBuf s nb
+      cases hsv : view? s src with
+      | none => intro hc; cases hc
+      | some sv =>
+        cases hdv : s1.mems[m]? with
+        | none => intro hc; cases hc
+        | some dv =>
+          simp only []
+          split
+          · intro hc; cases hc
+          · cases hcg : copyGuards dv dv sv (-1) 0 0 with
+            | error er => intro hc; cases hc
+            | ok t =>
+              obtain ⟨bytes, dOff, sOff⟩ := t
+              simp only []
+              obtain ⟨_, _, _, g1, g2⟩ := copyGuards_ok hcg
+              have hc := copyBytes_inv hg.1 (hg.1.views _ _ hdv) ((h.viewOk hsv).mono hle) g1 g2
+              cases hcb : copyBytes s1 dv sv bytes dOff sOff with
+              | mk s2 r =>
+                rw [hcb] at hc
+                have : r = .ok none := hc.2.1
+                subst this
+                intro hc'; cases hc'
+
+theorem cloneExpr_noTrap {s : State} (h : Inv s) (src : Nat) : cloneExpr s src ≠ .trap := by
+  unfold cloneExpr
+  split
+  · intro hc; cases hc
+  · rename_i p hp
+    split
+    · intro hc; cases hc
+    · have hg := mallocFromExpr_good h (p.size : Int) 1 src
+      have hnt := mallocFromExpr_noTrap h (p.size : Int) 1 src
+      cases hmf : mallocFromExpr s (p.size : Int) 1 src with
+      | err er => intro hc; cases hc
+      | trap => exact absurd hmf hnt
+      | val s1 om =>
+        rw [hmf] at hg
+        cases om with
+        | none => intro hc; cases hc
+        | some m =>
+          simp only []
+          have hlt := hg.2 m rfl
+          have : s1.mems[m]? = some s1.mems[m] := List.getElem?_eq_getElem hlt
+          rw [this]
+          intro hc; cases hc
+
+theorem step_noTrap {s : State} (h : Inv s) {op : Op} (hc : Contract s op) : (step s op).2 ≠ .trap := by
+  cases op with
+  | malloc v n e data =>
+    refine assignTo_noTrap (mallocExpr_noTrap ?_)
+    intro dt hd; subst hd; exact hc
+  | mallocFrom v n e src => exact assignTo_noTrap (mallocFromExpr_noTrap h n e src)
+  | wrap v hb n e =>
+    refine assignTo_noTrap ?_
+    unfold wrapExpr
+    simp only []
+    split
+    · intro h'; cases h'
+    · have hc' : hb < nHostBufs ∧ (n * (e : Int)).toNat ≤ hostBufSize := hc
+      rw [if_neg (not_not_intro hc')]
+      intro h'; cases h'
+  | slice d src off cnt =>
+    refine assignTo_noTrap ?_
+    unfold sliceExpr
+    split
+    · intro h'; cases h'
+    · split <;> (intro h'; cases h')
+  | cast d src e =>
+    refine assignTo_noTrap ?_
+    unfold castExpr
+    split
+    · intro h'; cases h'
+    · split <;> (intro h'; cases h')
+  | clone d src => exact assignTo_noTrap (cloneExpr_noTrap h src)
+  | setDtype v e =>
+    simp only [step, doSetDtype]
+    split
+    · intro h'; cases h'
+    · split <;> (intro h'; cases h')
+  | copyFromHost v data cnt off =>
+    simp only [step, doCopyFromHost]
+    split
+    · intro h'; cases h'
+    · rename_i p hp
+      split
+      · intro h'; cases h'
+      split
+      · intro h'; cases h'
+      split
+      · intro h'; cases h'
+      rename_i h1 h2 h3
+      have := hc p hp (by simpa using h3)
+      rw [if_neg (by omega)]
+      obtain ⟨b, hb1, _⟩ := h.viewOk hp
+      rw [hb1]
+      intro h'; cases h'
+  | copyToHost v cap cnt off =>
+    simp only [step, doCopyToHost]
+    split
+    · intro h'; cases h'
+    · rename_i p hp
+      split
+      · intro h'; cases h'
+      split
+      · intro h'; cases h'
+      split
+      · intro h'; cases h'
+      rename_i h1 h2 h3
+      have := hc p hp (by simpa using h3)
+      rw [if_neg (by omega)]
+      obtain ⟨b, hb1, _⟩ := h.viewOk hp
+      rw [hb1]
+      intro h'; cases h'
+  | copyFromMem d src cnt doff soff =>
+    simp only [step, doCopyFromMem]
+    split
+    · intro h'; cases h'
+    · intro h'; cases h'
+    · intro h'; cases h'
+    · rename_i dv sv hd hs
+      split
+      · intro h'; cases h'
+      · rename_i bytes dOff sOff hcg
+        obtain ⟨_, _, _, g1, g2⟩ := copyGuards_ok hcg
+        rw [(copyBytes_inv h (h.viewOk hd) (h.viewOk hs) g1 g2).2.1]
+        intro h'; cases h'
+  | copyToMem src d cnt doff soff =>
+    simp only [step, doCopyToMem]
+    split
+    · intro h'; cases h'
+    · intro h'; cases h'
+    · intro h'; cases h'
+    · rename_i sv dv hs hd
+      split
+      · intro h'; cases h'
+      · rename_i bytes dOff sOff hcg
+        obtain ⟨_, _, _, g1, g2⟩ := copyGuards_ok hcg
+        rw [(copyBytes_inv h (h.viewOk hd) (h.viewOk hs) g1 g2).2.1]
+        intro h'; cases h'
+  | assign d src => intro h'; cases h'
+  | free v =>
+    simp only [step, doFree]
+    split <;> (intro h'; cases h')
+  | hostWrite hb off data =>
+    simp only [step, doHostWrite]
+    obtain ⟨b, hb1, hb2⟩ := h.host hb hc.1
+    rw [hb1]
+    simp only []
+    rw [if_pos ⟨hc.1, by have := hc.2; omega⟩]
+    intro h'; cases h'
+  | hostRead hb off n =>
+    simp only [step, doHostRead]
+    obtain ⟨b, hb1, hb2⟩ := h.host hb hc.1
+    rw [hb1]
+    simp only []
+    rw [if_pos ⟨hc.1, by have := hc.2; omega⟩]
+    intro h'; cases h'
+
 end Occa.Mem
